@@ -34,14 +34,13 @@ import tornado.websocket  # noqa: F401
 from tornado.platform import asyncio as tpa
 
 from sim.env import SimEnv, ModProxy, UNIT
-from sim.tape import jsonable
 from sim.threads import (Baton, BatonLoop, SimSelect, sim_threading, line_tracer,
                          ForkRunner, DONE, BLOCKED)
 
 ID = "C40"
 LEVEL = "exploration"
-QUICK_N = 20000
-THOROUGH_N = 800_000
+QUICK_N = 10000
+THOROUGH_N = 200_000
 CHUNK = 400
 WALL = 30.0
 RULE = ("gen(seed): 1-4 fds with per-dispatch callback action lists (consume all/some, "
@@ -312,10 +311,10 @@ def _child(request, result):
                 except BaseException:  # noqa: BLE001 - StopIteration and friends
                     pass
         result.send({
-            "violations": viol, "nontrivial": nontrivial, "stats": jsonable(st),
-            "log_head": jsonable(log.head[:120]),
-            "log_full": jsonable(log.full) if log.full is not None else None,
-            "outcome": jsonable({"status": W.outcome, "steps": sched.steps,
+            "violations": viol, "nontrivial": nontrivial, "stats": st,
+            "log_head": log.head[:120],
+            "log_full": log.full,
+            "outcome": ({"status": W.outcome, "steps": sched.steps,
                                  "threads": sched.describe(), "dispatches": W.dispatches}),
         }, clean=clean)
 
@@ -681,14 +680,15 @@ def _child(request, result):
             elif status.startswith("error"):
                 bad("harness.main_raised", f"{status}: {getattr(env, 'main_exception', None)!r}")
             # -- every readiness of an fd that stays registered must have been dispatched
-            if status == "done" and not W.sel_closed:
+            died = any(t.exc is not None for t in sched.threads)
+            if status == "done" and not W.sel_closed and not died:
+                # (a selector thread killed by an exception is reported as such, once; the
+                # events lost after its death are a consequence, not a second violation)
                 net.deliver_due(loop._now)
                 for f in fds:
                     if f.closed:
                         continue
                     ctx = "/after_callback_exception" if W.raised else ""
-                    if any(t.exc is not None for t in sched.threads):
-                        ctx += "/after_selector_thread_died"
                     if f.i in W.readers and f.sock.readable():
                         bad("lost_event.read", f"quiescent, but fd#{f.i} is registered for reading "
                             f"and readable ({len(f.sock.rx.rbuf)} bytes buffered, fin="
@@ -757,4 +757,5 @@ def run(scn, full_log=False):
         gc.collect()
         gc.freeze()
         _frozen.append(1)
-    return _runner.run({"scn": scn, "full_log": bool(full_log)})
+    # full_log is what --replay asks for: a replay always gets a process of its own
+    return _runner.run({"scn": scn, "full_log": bool(full_log)}, fresh=bool(full_log))
